@@ -4,6 +4,7 @@
 mod aik;
 mod c12;
 mod c15;
+mod c18;
 mod driver;
 mod prng;
 mod report;
@@ -56,6 +57,7 @@ fn main() {
         "c12-probe" => c12::probe(&ctx),
         "c12-corr" => c12::corr(&ctx),
         "c15-names" => c15::names(&ctx),
+        "c18-apply" => c18::apply(&ctx),
         other => {
             eprintln!("unknown sub-command {other}");
             std::process::exit(2);
